@@ -17,8 +17,21 @@ def parse(line):
     return f[1], unhx(f[2]).decode("utf-8"), [int(x) for x in f[3:7]]
 
 
+AGAIN = set()      # cases whose second report in the same process differed from the first
+
+
+def describe_line(line):
+    try:
+        mode, text, q = parse(line)
+        return "source state `%s`, recorded position %s" % (mode, q)
+    except Exception:
+        return line[:200]
+
+
 def oracle(line, impl):
     mode, text, q = parse(line)
+    if line in AGAIN:
+        return "the same failure reported a second time in the same process gives a different message (or one of the two panics)"
     if "PANIC" in impl:
         return "formatting the report panicked (inside the panic machinery this aborts the process): %s" % impl
     if impl.startswith("MULTISPAN"):
@@ -105,7 +118,16 @@ def run(res):
     if not ok:
         raise vlib.CheckError("harness rt does not build against /repo: " + out[-1500:])
     cases = gen(res.tier, res.seed)
-    impl = vlib.run_harness("rt", cases)
+    impl, hung = vlib.run_harness_or_hang("rt", [], cases, timeout=120 if res.tier == "quick" else 3000)
+    if hung:
+        res.violation("failing-input", "a failing assertion never produces its report (hang while the message is formatted): %s"
+                      % (describe_line(hung),), {"case_line": hung, "hang": True})
+        return
+    AGAIN.clear()
+    for c, a in zip(cases, impl):
+        if a.endswith(" again=0"):
+            AGAIN.add(c)
+    impl = [a.rsplit(" again=", 1)[0] for a in impl]
     model = vlib.run_model(cases)
     name = "correspondence:span_of+fallback(Display for ErrorReport)"
     res.obligations.append(name)
@@ -145,7 +167,14 @@ def replay(res, path):
     ok, out = vlib.build_harness("rt")
     if not ok:
         raise vlib.CheckError("harness rt does not build: " + out[-1500:])
-    impl = vlib.run_harness("rt", [line])
+    impl, hung = vlib.run_harness_or_hang("rt", [], [line], timeout=30)
+    if hung:
+        print("the case never finishes (violation)")
+        return 1
+    AGAIN.clear()
+    if impl[0].endswith(" again=0"):
+        AGAIN.add(line)
+    impl = [impl[0].rsplit(" again=", 1)[0]]
     why = oracle(line, impl[0])
     print("impl:", impl[0], "->", why or "property holds on this input")
     return 1 if why else 0
